@@ -197,7 +197,7 @@ fn tuplify(rng: &mut crate::common::Rng, ty: &Ty, node: Option<&Node>) -> Ty {
         _ => ty.clone(),
     }
 }
-fn tuplify_doc(rng: &mut crate::common::Rng, ty: &Ty, doc: &Doc) -> Ty {
+pub fn tuplify_doc(rng: &mut crate::common::Rng, ty: &Ty, doc: &Doc) -> Ty {
     match ty {
         Ty::Struct(fs) => Ty::Struct(fs.iter().map(|(n, t)| {
             let node = doc.fields.iter().find(|f| crate::tyseed::key_name(&f.key).as_deref() == Some(n.as_str())).map(|f| &f.val);
